@@ -28,18 +28,19 @@ def run_draws(rep, tier, awkward, own, pid, ndraws):
         for p in case["params"]:
             seen_vals.add((case["est"], p["name"], p["val"]))
         rep.case((case["est"], json.dumps(case["params"]), json.dumps(case["data"])))
+        Xin = info.pop("Xin")
         if case["est"] == "Kauri":
             with _p.quiet():
                 try:
-                    model.fit(X, y)
-                    bad = config.kauri_coherence(model, X, y)
+                    model.fit(Xin, y)
+                    bad = config.kauri_coherence(model, np.asarray(Xin), y)
                 except Exception as e:
                     bad = [f"fit raised {type(e).__name__}: {e}"]
             if bad:
                 rep.violation(f"Kauri {info}: {bad}", {"case": case, "info": info}, tags=("Kauri", "raises" if "raised" in bad[0] else "incoherent"))
             continue
         with _p.quiet():
-            ev, err = train.record_fit(model, X, y, ids="match")
+            ev, err = train.record_fit(model, Xin, y, ids="match", decorated=info["decorated"])
         if err is not None:
             rep.violation(f"fit of a valid configuration raised {type(err).__name__}: {err} -- {info}", {"case": case, "info": info},
                           tags=("raises", info["est"], type(err).__name__))
